@@ -65,11 +65,19 @@ def run(tier, seed):
         raise FrameworkError("LemonParser: Feed/FeedEOF never taken")
     # 1b. the writers' dispatch tables, generated from the sources, are mutually consistent
     names, vals, cases = writer_cases.generate(gd)
-    wc = tlc.run("WriterCover", "INIT Init\nNEXT Next\nINVARIANTS Consistent LabelsAreKinds EnumOK\n", workers=1, spec_dirs=(gd,), extra=("-nowarning",))
     chk.cov["writer_cases"] = {w: len(c) for w, c in cases.items()}
-    if wc.violated:
-        miss = [l for l in wc.out.splitlines() if "missing" in l]
-        problems.append(("writers", wc.violated, " ".join(miss)[:1500]))
+    try:
+        wc = tlc.run("WriterCover", "INIT Init\nNEXT Next\nINVARIANTS Consistent LabelsAreKinds EnumOK\n", workers=1, spec_dirs=(gd,), extra=("-nowarning",))
+        bad = wc.violated
+    except tlc.TlcError as ex:
+        # the invariants of this module are constant-level: when one is false TLC says so before exploring ("The invariant of X is equal to FALSE")
+        m = re.search(r"invariant of (\w+) is equal to FALSE", str(ex))
+        if not m: raise
+        bad = m.group(1); wc = None
+    if bad:
+        rep = tlc.run("WriterCover", "INIT Init\nNEXT Next\nINVARIANT Report\n", workers=1, spec_dirs=(gd,), extra=("-nowarning",), want_printed=False)
+        miss = [l for l in rep.out.splitlines() if "missing" in l]
+        problems.append(("writers", bad, " ".join(miss)[:1500]))
     # 2. behaviours
     table, seqs, seqs3, sim, seqs4 = gen_docs(tier, seed)
     exe = build.build_harness("trace")
